@@ -1,7 +1,7 @@
 # C06VlsirPrims.v : the parameters every vlsirtools netlister REQUIRES of an instance of a `vlsir.primitives` element
 # (import-and-dump of vlsirtools.primitives: declared parameters without a default value; Netlister.get_instance_params
 # raises "Required parameter ... not specified" for each of them that the instance does not give).
-# Cross-checked against the exporter's prim_map: every name the exporter can write must be a declared element.
+# Cross-checked against the exporter's ideal-primitive names: every name the exporter can write must be a declared element.
 import ast
 
 
@@ -17,12 +17,11 @@ def _run():
         rows.append((name, req, [p.name for p in x.parameters]))
     if len(rows) < 8:
         die("vlsirtools primitive table unexpectedly small")
-    d = dict_in_func(src("hdl21/proto/exporting.py"), "export_instance", "prim_map")
-    for v in d.values:
-        if not (isinstance(v, ast.Constant) and isinstance(v.value, str)):
-            die("export_instance: prim_map is not a dict of string constants")
-        if v.value not in vp.dct:
-            die(f"export_instance: prim_map writes {v.value!r}, which vlsirtools.primitives does not declare")
+    # every name the exporter can write for an ideal primitive (read off the exporter's behaviour on every registered
+    # primitive, see prim_export_reading in translate_tables.py) must be a declared element
+    for k, v in prim_export_reading():
+        if v not in vp.dct:
+            die(f"the exporter writes {v!r} for {k}, which vlsirtools.primitives does not declare")
     body = "Definition vlsir_prim_required : list (string * list string) :=\n  [" + ";\n   ".join(
         f"({cstr(n)}, [" + "; ".join(cstr(p) for p in req) + "])" for n, req, _ in rows) + "].\n"
     emit("C06VlsirPrims", body)
